@@ -41,6 +41,7 @@ from hpl.ast.predicates import (
     predicate_from_expression,
 )
 from hpl.ast.properties import HplProperty, HplScope
+from hpl.types import DataType
 
 ###############################################################################
 # Constants
@@ -1002,7 +1003,7 @@ def _simplify_function_sum(call: HplFunctionCall) -> HplExpression:
                 assert isinstance(v, HplLiteral)
                 literals.append(v.value)
             else:
-                variables.append(v)
+                variables.append(v.cast(DataType.NUMBER))
         n = sum(literals)
         expr: HplExpression = HplLiteral.number(n)
         for v in variables:
@@ -1029,7 +1030,7 @@ def _simplify_function_prod(call: HplFunctionCall) -> HplExpression:
                 assert isinstance(v, HplLiteral)
                 literals.append(v.value)
             else:
-                variables.append(v)
+                variables.append(v.cast(DataType.NUMBER))
         n = 1
         for v in literals:
             n *= v
@@ -1076,7 +1077,7 @@ def _simplify_function_max(call: HplFunctionCall) -> HplExpression:
             assert isinstance(v, HplLiteral)
             literals.append(v.value)
         else:
-            variables.append(v)
+            variables.append(v.cast(DataType.NUMBER))
     if len(literals) < 2:
         return call  # nothing to do
     n = HplLiteral.number(max(*literals))
@@ -1112,7 +1113,7 @@ def _simplify_function_min(call: HplFunctionCall) -> HplExpression:
             assert isinstance(v, HplLiteral)
             literals.append(v.value)
         else:
-            variables.append(v)
+            variables.append(v.cast(DataType.NUMBER))
     if len(literals) < 2:
         return call  # nothing to do
     n = HplLiteral.number(min(*literals))
